@@ -90,6 +90,12 @@ func build(c *conCase, seq int) (l *live, herr error) {
 		var parent *cmap.File
 		for i := len(c.Layers) - 1; i >= 0; i-- {
 			f := &cmap.File{Name: fmt.Sprintf("Verif-%d-L%d", seq, i), ROS: ros, WMode: wmode, Parent: parent}
+			if i > 0 && c.ParentName != "" {
+				f.Name = c.ParentName
+				if i < len(c.Layers)-1 {
+					f.Name = "Identity-V"
+				}
+			}
 			for _, n := range c.Layers[i].Notdef {
 				f.NotdefRanges = append(f.NotdefRanges, cmap.Range{First: toBytes(n.Lo), Last: toBytes(n.Hi), Value: cmap.CID(n.V)})
 			}
@@ -155,7 +161,8 @@ func build(c *conCase, seq int) (l *live, herr error) {
 
 // query asks the real code everything the record holds.
 func query(c *conCase, stage string, fc *cmap.File, ft *cmap.ToUnicodeFile, codec *charcode.Codec, errText string) (rec record) {
-	rec = record{Kind: c.Kind, Stage: stage, Err: errText, CSR: c.CSR, Layers: c.Layers, File: c.File, Opt: c.Opt, Origin: c.Origin, ProbeCodes: c.Probes}
+	rec = record{Kind: c.Kind, Stage: stage, Err: errText, CSR: c.CSR, Layers: c.Layers, File: c.File, Opt: c.Opt, Origin: c.Origin, ProbeCodes: c.Probes,
+		ParentName: c.ParentName, CloneStep: c.CloneStep}
 	defer rec.normalise()
 	if errText != "" {
 		return rec
@@ -166,6 +173,9 @@ func query(c *conCase, stage string, fc *cmap.File, ft *cmap.ToUnicodeFile, code
 		}
 	}()
 	var buf []byte
+	if c.CloneStep && fc != nil {
+		cloneStep(c, fc, codec)
+	}
 	if isTU(c.Kind) {
 		rec.CSR2 = fromCSR(ft.CodeSpaceRange)
 		for _, p := range c.Probes {
@@ -207,6 +217,93 @@ func query(c *conCase, stage string, fc *cmap.File, ft *cmap.ToUnicodeFile, code
 		}
 	}
 	sort.Slice(rec.Mapping, func(i, j int) bool { return key(rec.Mapping[i].C) < key(rec.Mapping[j].C) })
+	return rec
+}
+
+// cloneStep: Clone every file of the chain and give the clone another mapping with
+// the same shape (the layer's entries with other CIDs).  Clone copies the File, so
+// nothing of this may show in the original.
+func cloneStep(c *conCase, f *cmap.File, codec *charcode.Codec) {
+	i := 0
+	for g := f; g != nil; g = g.Parent {
+		cl := g.Clone()
+		data := map[charcode.Code]cid.CID{}
+		if i < len(c.Layers) {
+			for _, e := range c.Layers[i].Entries {
+				if code, err := codeOf(codec, e.C); err == nil {
+					data[code] = cid.CID(e.V.N + 7)
+				}
+			}
+		} else if len(c.File.Ranges) > 0 {
+			if code, err := codeOf(codec, c.File.Ranges[0].First); err == nil {
+				data[code] = 4242
+			}
+		}
+		cl.SetMapping(codec, data)
+		i++
+	}
+}
+
+// frameCase: a predefined CMap from the package's cache is cloned and the clone gets
+// a mapping; lookups and the enumeration of the cached file before and after go
+// into one record (kind "frame-cid").
+func frameCase(c *conCase) (rec record) {
+	rec = record{Kind: "frame-cid", Stage: "built", CSR: []rng{}, Opt: c.Opt, Origin: c.Origin, Predefined: c.Predefined}
+	defer rec.normalise()
+	defer func() {
+		if r := recover(); r != nil {
+			rec.Err = fmt.Sprintf("panic: %v", r)
+		}
+	}()
+	p, err := cmap.Predefined(c.Predefined)
+	if err != nil {
+		rec.Err = "Predefined: " + err.Error()
+		return rec
+	}
+	codec, err := p.Codec()
+	if err != nil {
+		rec.Err = "Codec: " + err.Error()
+		return rec
+	}
+	rec.CSR = fromCSR(p.CodeSpaceRange)
+	rec.CSR2 = rec.CSR
+	listing := func() (out []entry, codes [][]int) {
+		var buf []byte
+		for code, v := range p.All(codec) {
+			buf = codec.AppendCode(buf[:0], code)
+			out = append(out, entry{C: toInts(buf), V: cidVal(int(v))})
+			if len(out) >= 400 {
+				break
+			}
+		}
+		return out, nil
+	}
+	rec.All2, _ = listing()
+	probes := append([][]int{}, c.Probes...)
+	for i, e := range rec.All2 {
+		if i%5 == 0 {
+			probes = append(probes, e.C)
+		}
+	}
+	for _, pc := range probes {
+		rec.Mapping = append(rec.Mapping, entry{C: pc, V: cidVal(int(p.LookupCID(toBytes(pc))))})
+	}
+	// the step that must leave p alone
+	cl := p.Clone()
+	data := map[charcode.Code]cid.CID{}
+	for i, e := range rec.All2 {
+		if i%3 == 0 && len(data) < 40 {
+			if code, err := codeOf(codec, e.C); err == nil {
+				data[code] = cid.CID(60000 + i)
+			}
+		}
+	}
+	cl.SetMapping(codec, data)
+	for _, pc := range probes {
+		rec.Probes = append(rec.Probes, probeRec{C: pc, OK: true, V: cidVal(int(p.LookupCID(toBytes(pc))))})
+	}
+	rec.All, _ = listing()
+	rec.ProbeCodes = probes
 	return rec
 }
 
